@@ -8,7 +8,7 @@ from aiomysensors.exceptions import InvalidMessageError
 from aiomysensors.model.message import Message
 
 from vf import env, gen
-from vf.codec_ref import INTERNAL_MAX, plain_int, ref_format
+from vf.codec_ref import INTERNAL_MAX, plain_int, ref_format, ref_protocol
 from vf.runner import Outcome, fail
 
 ID = "C12"
@@ -44,13 +44,13 @@ def strategy(tier: str):
     normal = st.fixed_dictionaries(
         {
             "kind": st.just("msg"),
-            "version": gen.versions,
+            "version": gen.versions_any,
             "dest": st.sampled_from(("unknown", "awake", "sleeping", "sleeping")),
             "msg": msg,
             "buffer": st.sampled_from((None, None, True, False)),
         }
     )
-    odd = st.fixed_dictionaries({"kind": st.just("nonmsg"), "version": gen.versions, "obj": st.sampled_from(NONMSG), "buffer": st.sampled_from((None, False))})
+    odd = st.fixed_dictionaries({"kind": st.just("nonmsg"), "version": gen.versions_any, "obj": st.sampled_from(NONMSG), "buffer": st.sampled_from((None, False))})
     return gen.weighted((5, normal), (1, odd), (3, _hist_strategy()))
 
 
@@ -143,7 +143,7 @@ def _hist_strategy():
     return st.fixed_dictionaries(
         {
             "kind": st.just("hist"),
-            "version": gen.versions,
+            "version": gen.versions_any,
             "ops": st.lists(gen.weighted((4, send), (3, send_set), (2, wake), (2, other)), min_size=6, max_size=25),
         }
     )
@@ -263,11 +263,12 @@ def run_case(case: dict) -> Outcome:
             return fail(f"silently-discarded:cmd={command}:dest={dest}", f"{where}: nothing written, no error, destination not sleeping")
         # outcome (2) must be completed by the node's next wake
         transport.step = 1
-        if version in ("1.4", "1.5"):
+        rules = ref_protocol(version) or "1.4"
+        if rules in ("1.4", "1.5"):
             await env.rx(gateway, "0;255;3;0;2;2.2.0\n")
             transport.writes.clear()
             wake = f"{msg[0]};255;3;0;32;500\n"
-        elif version == "2.2":
+        elif rules == "2.2":
             wake = f"{msg[0]};255;3;0;32;500\n"
         else:
             wake = f"{msg[0]};255;3;0;22;5\n"
